@@ -188,6 +188,66 @@ let predict_phoutq cap kinds per obs =
   (pred, v, fired > int_of_nat cap)
 
 
+(* ---- a whole pool through the real engine (harness/cmd/hC10/engine.go): entries of a uri file, the requests the
+   target has received, the lines of the results file ---- *)
+let predict_engine entries obs =
+  let cfg = { at_enabled = false; at_depth = nat_of_int 2; at_notagonly = true } in
+  let ents = Array.of_list (List.map (fun e -> let (t, st) = cut ':' e in (bytes_of_hex t, st)) (String.split_on_char ',' entries)) in
+  let m = Array.length ents in
+  (* the request of entry i carrying id *)
+  let shot_of (i, id) =
+    let (tag, st) = ents.(i) in
+    (* trunc: status 500, the body ends before its announced length: an error value without errno (999) *)
+    let x = if st = "trunc" then XResp (n_of_int 500, BodyErr (false, EOther)) else XResp (n_of_string st, BodyOk) in
+    ShHttp (cfg, false, n_of_int id, tag, bytes_of_string (Printf.sprintf "/e%d" i), x) in
+  let line (s : sample) = Printf.sprintf "%s#%s:%s:%s" (hex_of_bytes s.sm_tags) (string_of_n s.sm_id) (string_of_n s.sm_proto) (string_of_n s.sm_net) in
+  let words = split_blank obs in
+  let field p = List.fold_left (fun acc w -> if starts p w then Some (after_prefix p w) else acc) None words in
+  match field "err=", field "served=", field "n=" with
+  | Some "hang", _, _ -> ("err=nil", "BAD:the pool run does not end (a Report blocks on an aggregator that has returned, or the await loop waits for ever)", true)
+  | Some err, Some served, Some _ ->
+      let served_l = if served = "-" then [] else
+        List.map (fun w -> let (i, k) = cut '*' w in (int_of_string i, int_of_string k)) (String.split_on_char ',' served) in
+      let foreign = List.exists (fun (j, _) -> j < 0 || j >= m) served_l in
+      let served_l = List.filter (fun (j, _) -> j >= 0 && j < m) served_l in
+      let total = List.fold_left (fun a (_, k) -> a + k) 0 served_l in
+      let obs_lines = List.filter (fun w -> String.contains w '#') words in
+      let ids = List.map (fun w -> let (_, r) = cut '#' w in let (id, _) = cut ':' r in int_of_string id) obs_lines in
+      let rec distinct = function a :: (b :: _ as r) -> a <> b && distinct r | _ -> true in
+      let ids_ok = distinct (List.sort compare ids) && List.for_all (fun k -> k >= 1) ids in
+      (* which request is a line the sample of?  The ids are handed out at Acquire (any order among concurrently acquiring
+         instances), so a line is matched with a received request of an entry whose sample (with the line's id) it is *)
+      let remaining = Array.make m 0 in
+      List.iter (fun (j, k) -> remaining.(j) <- remaining.(j) + k) served_l;
+      let pairs = List.filter_map (fun (w, id) ->
+        let rec find i = if i >= m then None
+          else if remaining.(i) > 0 && w = line (List.hd (shot_spec (shot_of (i, id)))) then (remaining.(i) <- remaining.(i) - 1; Some (i, id))
+          else find (i + 1) in
+        find 0) (List.combine obs_lines ids) in
+      let all_matched = List.length pairs = List.length obs_lines in
+      let none_left = Array.for_all (fun k -> k = 0) remaining in
+      (* code-shaped side: the requests the target saw, shot by a pool with one instance more than there is ammo at
+         a slow target, the await loop as the source has it (Model/ShootEngine.v slow_trace) *)
+      let model_reqs =
+        if all_matched && none_left then pairs
+        else List.mapi (fun k i -> (i, k + 1)) (List.concat_map (fun (j, k) -> List.init k (fun _ -> j)) served_l) in
+      let shots = List.map shot_of model_reqs in
+      let var = engine_variant gen_run_cancel_only_in_check in
+      let show err l = String.concat " " (("err=" ^ err) :: ("served=" ^ served) :: Printf.sprintf "n=%d" (List.length l) :: List.sort compare (List.map line l)) in
+      let pred = if slow_run_over var shots then show "nil" (slow_run_lines var shots) else "err=hang" in
+      (* specification: the pool ends without error; ids pairwise distinct; as many lines as requests the target has
+         received; every line is the sample of one of them (the ammo's tag or __EMPTY__, the status the target answered,
+         net 0 / 999 for a body that ends early), each request having its own line *)
+      let v =
+        if err <> "nil" then "BAD:the pool run failed"
+        else if foreign then "BAD:the target received a request that is no entry of the file"
+        else if not ids_ok then "BAD:ids of the lines are not pairwise distinct"
+        else if List.length ids <> total then
+          Printf.sprintf "BAD:the results do not hold exactly one line per fired request (n=%d lines of %d)" (List.length ids) total
+        else verdict (all_matched && none_left) "a line is not the sample of a request the target received (tag, proto code, net code)" in
+      (pred, v, total >= 2)
+  | _ -> ("err=nil", "BAD:" ^ obs, true)
+
 (* ---- ammo-file cases (harness/cmd/hC10/ammo.go): from the bytes of the file to the samples ---- *)
 
 let str_of (b : n list) : string = String.concat "" (List.map (fun x -> String.make 1 (Char.chr (int_of_n x land 255))) b)
@@ -409,6 +469,7 @@ let predict (c : string) (obs : string) : string * string * bool =
       (s_trace (gscen_ev_decl nm st), verdict (obs = want) ("expected " ^ want), List.length st > 1)
   | ["scfile"; fmt; k; decls; scens] -> predict_scfile fmt k decls scens obs
   | ["phoutq"; cap; kinds; per] -> predict_phoutq cap kinds per obs
+  | ["engine"; _; _; _; _; _; _; entries] -> predict_engine entries obs
   | ["gshoot"; tag; kind] | ["gshoot"; tag; kind; _] ->
       let call = (if kind = "unknown" then GUnknown else if kind = "badpayload" then GBadPayload
                   else GCalled (n_of_string (after_prefix "st" kind))) in
